@@ -236,12 +236,12 @@ def equal_reader_rules(ctx, rule):
         # bookkeeping on the path where the inner read succeeded
         if p.end[0] == "return" and p.ret()[0] == "agg" and p.ret()[2] == "Ok":
             cnt = p.ret()[3]["0"]
-            from_read = any(x and x[0] in ("payload", "downcast", "refined", "call") and absint.contains(x, e[4]) for x in absint.walk_terms(cnt)) or absint.contains(cnt, e[4])
+            from_read = absint.mentions_call(cnt, e[4])
             if not from_read:
                 bad_ret.append(symex.sym_str(cnt)[:80])
             fin = p.state.read_key((1, "*", "." + size_f[0]))
             subs = [x for x in absint.walk_terms(fin) if x and x[0] == "binop" and x[1] in ("Sub", "SubWithOverflow", "SubUnchecked")]
-            ok_d = bool(subs) and subs[0][2] == SIZE and absint.contains(subs[0][3], e[4])
+            ok_d = bool(subs) and subs[0][2] == SIZE and absint.mentions_call(subs[0][3], e[4])
             if not ok_d and not (fin[0] == "call" and re.search(r"(saturating|wrapping|checked)_sub$", fin[1]) and False):
                 bad_dec.append(symex.sym_str(fin)[:100])
     ctx.floor("%s paths of EqualReader::read that reach the inner reader" % rule, n, 1)
